@@ -181,7 +181,10 @@ CONSTRUCTS = ["alfa", "5", "-3.5", "true", "2010", "'june 2010'", '"alfa bravo"'
               "alf*", "a?fa", "*", "?", "alfa~", "alfa~2/2", "alfa^2", "alfa^x", "[a TO z]", "{a TO z}", "[TO z]", "[a TO]",
               "[1 TO 10]", "{-5 TO 5]", "[2001 TO 2011]", "[true TO false]", "[a TO", "TO]", ">5", "<=alfa", ">", "(alfa bravo)",
               "(alfa OR 5)^2", "NOT alfa", "alfa AND", "+alfa -bravo", "r\"al.a\"", "r\"[\"", "alfa:bravo", "\u00e9t\u00e9",
-              "\U0001f600", "alfa ANDNOT [1 TO 2]", "'unterminated", "<alfa>", "a" * 300]
+              "\U0001f600", "alfa ANDNOT [1 TO 2]", "'unterminated", "<alfa>", "a" * 300,
+              # what the sequence plugin finds between quotes
+              '"alfa [a TO z]"', '"alf* bravo"', '"alfa~ bravo"', '"(alfa OR bravo) charlie"', '"NOT alfa"', '"[TO]"', '"*"',
+              '"5 [1 TO 10]"', '"alfa bravo"~2', '"num:5 alfa"', '"flag:true alfa"', '"date:2010 x"', '"~3[TO]*"']
 
 
 def matrix_enum(tier, shard, nshards):
